@@ -859,6 +859,41 @@ def install():
     if _installed:
         return
     _installed = True
+    # CrossHair's "premature realize" heuristic: when an argument was realised on earlier paths, later iterations pick
+    # one concrete value for it up front with growing probability.  Those sampled paths can never exhaust anything
+    # (the verdict here needs the symbolic side exhausted) and were seen to eat 90% of the iterations of an
+    # obligation (C06 community pairs: 452 of 500 paths).  The node is still created (determinism) but the sampling
+    # branch is never taken while the symbolic branch has work left.
+    from crosshair.statespace import StateSpace as _SS
+    _fork_parallel = _SS.fork_parallel
+
+    def _no_premature(self, false_probability, desc=''):
+        return _fork_parallel(self, 1.0, desc)
+    _SS.fork_parallel = _no_premature
+
+    # int.to_bytes of a symbolic int (struct.pack goes through it): CrossHair derives each octet as (v / 256**i) % 256,
+    # and every later comparison of re-assembled octets with the original value is a div/mod query (seconds each, some
+    # `unknown`).  Fresh octet variables tied to v by one linear constraint say the same thing (the base-256
+    # decomposition of 0 <= v < 256**n is unique) and are decided in milliseconds.
+    _sym_to_bytes = SymbolicInt.to_bytes
+
+    def _skolem_to_bytes(self, length=1, byteorder='big', *, signed=False):
+        with NoTracing():
+            plain = (type(length) is int and 0 < length <= 16 and signed is False and byteorder in ('big', 'little')
+                     and type(self) is SymbolicInt)
+        if not plain:
+            return _sym_to_bytes(self, length, byteorder, signed=signed)
+        if self < 0 or self >= 256 ** length:
+            raise OverflowError
+        octs = skolem_octets(self, length)
+        if octs is None:
+            return _sym_to_bytes(self, length, byteorder, signed=signed)
+        STATS['to_bytes_skolem'] = STATS.get('to_bytes_skolem', 0) + 1
+        if byteorder == 'little':
+            octs = list(reversed(octs))
+        return bytes(list(octs))
+    SymbolicInt.to_bytes = _skolem_to_bytes
+
     setup_binop(_bit_sym_sym, {ops.and_, ops.or_, ops.xor})
     setup_binop(_bit_sym_int, {ops.and_, ops.or_, ops.xor})
     setup_binop(_bit_int_sym, {ops.and_, ops.or_, ops.xor})
